@@ -43,3 +43,86 @@ Example C03_example :
   wf_box ex_doc3 = true /\ wf_geom ex_doc3 = true /\
   exists pages, paginate_res ex_doc3 25 10 = PDone pages /\ (length pages > 1)%nat.
 Proof. split; [reflexivity|]. split; [reflexivity|]. eexists. split; [vm_compute; reflexivity|]. simpl. auto with arith. Qed.
+
+(* ---- every page makes progress; pagination terminates within a bound that depends on the document only ---- *)
+Require Import WV.proofs.C01_blocks WV.proofs.C01_thm WV.proofs.C03_progress_pos WV.proofs.C03_progress_step
+        WV.proofs.C03_progress.
+
+(* [pos root sk] = number of units (boxes and lines) of the document that lie before the resume point sk; on valid
+   resume points it orders exactly like the lexicographic document order on skip stacks *)
+Theorem C03_position_is_document_order : forall b sk sk', wf_skip b sk -> wf_skip b sk' ->
+  (later b sk sk' <-> (pos b sk < pos b sk')%nat).
+Proof. exact later_iff_pos. Qed.
+Print Assumptions C03_position_is_document_order.
+
+(* find_earlier_page_break never moves the break back to (or before) the point where the fragment started:
+   it never gives back everything *)
+Theorem C03_find_earlier_keeps_something : forall b sk f kept res,
+  wf_box b = true -> wf_skip b sk -> cinv b sk f -> find_earlier_f f = Some (kept, res) ->
+  (pos b sk < pos b (Some res))%nat.
+Proof. exact find_earlier_later. Qed.
+Print Assumptions C03_find_earlier_keeps_something.
+
+(* One page: the root laid out on an EMPTY page (page_is_empty = true, the way the page loop calls it) from any
+   valid resume point, for any page height (also shorter than a line), line height, margins, break values,
+   orphans/widows: the call never aborts, it conserves the content, the returned resume point is valid and
+   STRICTLY LATER in document order than the one the page started from. *)
+Theorem C03_page_makes_progress : forall root c p m bs resume a,
+  wf_box root = true -> is_blk root = true -> wf_skip root resume ->
+  exists r A B C, bcl c root p m bs resume true a = (Some r, A, B, C) /\
+    wf_res root (b_resume r) /\
+    fwords (b_frag r) ++ words_res root (b_resume r) = words_from root resume /\
+    (b_resume r = None \/
+     exists s, b_resume r = Some s /\ (pos root resume < pos root (Some s))%nat /\ later root resume (Some s)).
+Proof. exact page_makes_progress. Qed.
+Print Assumptions C03_page_makes_progress.
+
+(* The page loop terminates: with fuel >= page_bound root = 2 * (number of boxes + number of lines) it returns
+   PDone (neither PFuel nor PStuck) and at most page_bound root pages, blank pages included. *)
+Theorem C03_pagination_terminates : forall root H lh ltr,
+  wf_box root = true -> is_blk root = true ->
+  forall fuel, (page_bound root <= fuel)%nat ->
+  exists pages, paginate_loop fuel root H lh ltr 0 None None true = PDone pages /\
+                (length pages <= page_bound root)%nat.
+Proof. exact pagination_terminates. Qed.
+Print Assumptions C03_pagination_terminates.
+
+(* the same from every state the loop can be in (page number, resume point, pending forced break, side) *)
+Theorem C03_pagination_terminates_from : forall root H lh ltr fuel i resume np right,
+  wf_box root = true -> is_blk root = true -> wf_skip root resume ->
+  (2 * (bsize root - pos root resume) <= fuel)%nat ->
+  exists pages, paginate_loop fuel root H lh ltr i resume np right = PDone pages /\
+                (length pages <= 2 * (bsize root - pos root resume))%nat.
+Proof. exact pagination_terminates_from. Qed.
+Print Assumptions C03_pagination_terminates_from.
+
+(* the root is never aborted on an empty page: PStuck is impossible for any fuel *)
+Theorem C03_never_stuck : forall fuel root H lh ltr i resume np right,
+  wf_box root = true -> is_blk root = true -> wf_skip root resume ->
+  match paginate_loop fuel root H lh ltr i resume np right with PStuck _ => False | _ => True end.
+Proof. exact never_stuck. Qed.
+Print Assumptions C03_never_stuck.
+
+(* with the 500 pages of fuel of [paginate_res]: complete pagination of every document whose bound is <= 500 *)
+Theorem C03_paginate_res_done : forall root H lh,
+  wf_box root = true -> is_blk root = true -> (page_bound root <= page_fuel)%nat ->
+  exists pages, paginate_res root H lh = PDone pages /\ paginate root H lh = pages /\
+                (length pages <= page_bound root)%nat /\ pages_words pages = bwords root.
+Proof. exact paginate_res_done. Qed.
+Print Assumptions C03_paginate_res_done.
+
+(* beyond the bound the result does not depend on the fuel *)
+Theorem C03_fuel_irrelevant : forall root H lh ltr fuel fuel',
+  wf_box root = true -> is_blk root = true -> (page_bound root <= fuel)%nat -> (fuel <= fuel')%nat ->
+  paginate_loop fuel' root H lh ltr 0 None None true = paginate_loop fuel root H lh ltr 0 None None true.
+Proof. exact pagination_fuel_irrelevant. Qed.
+Print Assumptions C03_fuel_irrelevant.
+
+(* non-vacuity: nested blocks, an empty block, break-inside: avoid, forced left/right breaks (blank pages),
+   orphans = widows = 2; page heights 5 (shorter than the line height 10), 30, 1000 *)
+Example C03_progress_example :
+  wf_box pg_doc = true /\ is_blk pg_doc = true /\ page_bound pg_doc = 44%nat /\ (page_bound pg_doc <= page_fuel)%nat /\
+  (exists pages, paginate_res pg_doc 5 10 = PDone pages /\ length pages = 14%nat) /\
+  (exists pages, paginate_res pg_doc 30 10 = PDone pages /\ length pages = 7%nat) /\
+  (exists pages, paginate_res pg_doc 1000 10 = PDone pages /\ length pages = 4%nat).
+Proof. exact pagination_terminates_example. Qed.
